@@ -124,3 +124,19 @@ def no_sel(t):
     if not t.args:
         return t
     return T(t.op, *[no_sel(a) for a in t.args])
+
+
+def stored_back_over_list(fn, assign, loop):
+    """`L[i] = <expr>` inside `for ... in <something over L>` where L is a parameter of `fn` or part of what it returns
+    (role of the list, not its name)"""
+    if not (isinstance(assign, ast.Assign) and isinstance(assign.targets[0], ast.Subscript) and loop is not None):
+        return False
+    base = assign.targets[0].value
+    if not isinstance(base, ast.Name):
+        return False
+    if base.id not in {n.id for n in ast.walk(loop.iter) if isinstance(n, ast.Name)}:
+        return False
+    params = {a.arg for a in fn.args.posonlyargs + fn.args.args + fn.args.kwonlyargs}
+    returned = {n.id for r in ast.walk(fn) if isinstance(r, ast.Return) and r.value is not None for n in ast.walk(r.value)
+                if isinstance(n, ast.Name)}
+    return base.id in params or base.id in returned
